@@ -252,8 +252,7 @@ class _ConnectionBase:
         self._check_readable()
         with memoryview(buf) as m:
             # Get bytesize of arbitrary buffer
-            itemsize = m.itemsize
-            bytesize = itemsize * len(m)
+            bytesize = m.nbytes
             if offset < 0:
                 raise ValueError("negative offset")
             elif offset > bytesize:
@@ -264,9 +263,10 @@ class _ConnectionBase:
                 raise BufferTooShort(result.getvalue())
             # Message can fit in dest
             result.seek(0)
-            result.readinto(m[
-                offset // itemsize:(offset + size) // itemsize
-            ])
+            # offset and size count bytes: address the destination
+            # byte-wise, whatever its item size or shape
+            with m.cast('B') as bm:
+                result.readinto(bm[offset:offset + size])
             return size
 
     def recv(self):
